@@ -235,7 +235,7 @@ def execute(sc, ctx):
     scu = ctx.make_ae("SCU", acse=t, dimse=t, network=2 * t, max_pdu=sc.get("max_pdu", 16382))
     for u in (C.VERIFICATION, C.PR_FIND, C.PR_GET, C.PR_MOVE, C.PRINTER, C.BASIC_FILM_SESSION, C.CT):
         scu.add_requested_context(u)
-    assoc = ctx.associate(scu, handlers=[(evt.EVT_C_STORE, on_store_sub)], ext_neg=[build_role(C.CT, scp_role=True)])
+    assoc = ctx.associate(scu, handlers=[(evt.EVT_C_STORE, on_store_sub)], ext_neg=[build_role(C.CT, scu_role=True, scp_role=True)])
     ctx.obs["established"] = assoc.is_established
     if not assoc.is_established:
         return
@@ -246,7 +246,7 @@ def execute(sc, ctx):
         def interferer():
             ctx.sleep(inter.get("after", 0.0))
             k = inter["kind"]
-            sim.record("interfere", kind=k)
+            sim.record("interfere", what=k)
             try:
                 if k == "abort":
                     assoc.abort()
